@@ -64,8 +64,8 @@ except Exception:  # noqa: BLE001
 MARKET_SETS = [["uni_a"], ["uni_a", "uni_b"], ["uni_a", "aave"], ["deribit"], ["uni_a", "deribit"], ["uni_sq", "squeeth"], ["gmx"]]
 CALL, PUT = "ETH-22SEP23-1650-C", "ETH-22SEP23-1600-P"
 T0 = "2023-08-15 00:00:00"
-GENERIC = ["idle", "watcher", "mut_prices", "mut_data", "mut_nested", "mut_status", "mut_assets"]
-UNI = ["add1", "add2", "addremove", "buy", "sell", "rebalance", "failing", "indicator", "follower", "vandal"]
+GENERIC = ["idle", "watcher", "mut_prices", "mut_data", "mut_nested", "mut_status", "mut_assets", "trig_init", "trig_ctor"]
+UNI = ["add1", "add2", "addremove", "buy", "sell", "rebalance", "failing", "indicator", "follower", "vandal", "bad_price"]
 OPT = ["opt_buy", "opt_round", "opt_twice"]
 BEHAVIOURS = GENERIC + UNI + ["add_b", "aave_s", "aave_sb"] + OPT + ["sq_buy", "sq_short", "glp_buy", "glp_round"]
 
@@ -342,6 +342,12 @@ def probe_found(strategy):
         f["prices"] += len(pp) if c not in p.columns or len(p) != len(pp) else int((p[c] != pp[c]).sum())
     f["prices"] += len([c for c in p.columns if c not in pp.columns and c != "USD"])
     f["cells"] = str(f["cells"])
+    # process-wide and per-object state a backtest starts with: the Decimal context, and triggers already installed that are not this strategy's
+    import decimal
+    c = decimal.getcontext()
+    f["dctx"] = [c.prec, c.rounding, sorted(t.__name__ for t, on in c.traps.items() if on)]
+    own = getattr(strategy, "_own_triggers", [])
+    f["foreign_triggers"] = len([t for t in strategy.triggers if not any(t is o for o in own)])
     return f
 
 
@@ -355,6 +361,28 @@ def make_strategy_class():
             self.tokens = tokens or {}
             self.notes = []
             self.found = None
+            self._own_triggers = []
+            if behaviour == "trig_ctor":          # triggers installed when the strategy object is made
+                self._install_triggers()
+
+        def _install_triggers(self):
+            from datetime import timedelta
+            from demeter.strategy.trigger import PeriodTrigger, AtTimeTrigger
+            import pandas as pd
+            mine = [PeriodTrigger(timedelta(minutes=3), self._on_trigger, trigger_immediately=True, who="period"),
+                    AtTimeTrigger((pd.Timestamp(T0) + pd.Timedelta(minutes=2)).to_pydatetime(), self._on_trigger, who="at")]
+            self._own_triggers += mine
+            self.triggers.extend(mine)
+
+        def _on_trigger(self, snapshot, who):
+            # a trigger-driven strategy: trades on ITS OWN account (self.broker) whenever one of its triggers fires
+            self.notes.append(f"trigger:{who}:{snapshot.timestamp}")
+            if self._has("uni_a"):
+                self._try("trigger-buy", lambda: self._m("uni_a").buy(Decimal("0.05")))
+            elif self._has("gmx"):
+                self._try("trigger-glp", lambda: self._m("gmx").buy_glp(self.tokens["usdc"], Decimal(50)))
+            elif self._has("squeeth"):
+                self._try("trigger-sq", lambda: self._m("squeeth").buy_squeeth(eth_amount=Decimal("0.1")))
 
         def _m(self, k):
             name = k if isinstance(k, str) else self.market_names[min(k, len(self.market_names) - 1)]
@@ -377,6 +405,8 @@ def make_strategy_class():
             import pandas as pd
             self.found = probe_found(self)
             b = self.behaviour
+            if b == "trig_init":                  # the documented place to add triggers
+                self._install_triggers()
             if self._has("deribit") and (b in OPT or b == "watcher"):
                 self._try("deposit", lambda: self._m("deribit").deposit(Decimal(5)))
             if b == "indicator":
@@ -409,7 +439,14 @@ def make_strategy_class():
                 m.add_liquidity_by_tick(t - width, t + width, base, quote)
             # Deribit trades only on bars of its hourly grid: with minute bars (a Uniswap market is configured too) bars 0 and 60
             o1, o2 = (1, 2) if self.market_names == ["deribit"] else ((0, 60) if self._has("deribit") else (-1, -1))
-            if b == "indicator" and r in (2, 5):
+            if b == "bad_price" and r in (1, 4):
+                # a computed price that came out non-positive: the call is refused, the strategy catches the exception and goes on trading
+                m = self._m(0)
+                if r == 1:
+                    self._try("price-to-tick", lambda: m.price_to_tick(Decimal(0)))
+                    self._try("add-bad", lambda: m.add_liquidity(Decimal(-5), Decimal(2000), Decimal(1), Decimal(1000)))
+                self._try("buy", lambda: m.buy(Decimal("0.3")))
+            elif b == "indicator" and r in (2, 5):
                 sig = snapshot.market_status[self._m(0).market_info].sig
                 self._try(f"sig{sig}", lambda: self._m(0).buy(Decimal("0.2")) if sig == 2 else self._m(0).sell(Decimal("0.1")))
             elif b == "vandal" and r == 1:
@@ -635,6 +672,14 @@ def worker(spec_path):
     mgr = BacktestManager(config=config, data=data, strategies=strategies, backtest_config=BacktestConfig(interval=spec.get("interval", "1min")),
                           threads=spec["threads"])
     mgr.run()
+    if spec["threads"] == 1 or len(strategies) == 1:
+        # in-process path: the strategy objects the caller holds ARE the ones that ran; what they say once every backtest is over
+        for st in strategies:
+            try:
+                with open(os.path.join(spec["out"], st.sid + "__post.json"), "w") as f:
+                    json.dump(dump_state(st), f)
+            except Exception:  # noqa: BLE001   (a strategy that never ran has no account)
+                pass
     after = {mi.name: frame_hash(df) for mi, df in frames.items()}
     after["price"] = frame_hash(pdf)
     leftover = {m.market_info.name: count_positions(m) for m in config.markets}
@@ -719,7 +764,7 @@ def run_manager(spec, timeout=600):
                            timeout=timeout, env=dict(os.environ))
         res = {}
         for s in spec["strategies"]:
-            for sid in (s["sid"], s["sid"] + "_direct"):
+            for sid in (s["sid"], s["sid"] + "_direct", s["sid"] + "__post"):
                 fp = os.path.join(d, sid + ".json")
                 res[sid] = json.load(open(fp)) if os.path.exists(fp) else None
         mp = os.path.join(d, "_manager.json")
@@ -766,7 +811,7 @@ def solo_key(case, behaviour, arg):
 def run_solo(case, behaviour, arg):
     """the reference: the strategy alone, (a) through a manager with one strategy, (b) by a plain Actuator on fresh objects"""
     res, _, _, err = run_manager(dict(conf_of(case), threads=1, direct=True, strategies=[{"sid": "solo", "behaviour": behaviour, "arg": arg}]))
-    return {"manager": res["solo"], "direct": res["solo_direct"], "err": err}
+    return {"manager": res["solo"], "direct": res["solo_direct"], "post": res.get("solo__post"), "err": err}
 
 
 def run_case(case):
@@ -840,6 +885,17 @@ def judge_case(ctx, case, outcome, solo_cache, model_reqs):
             ctx.violate(f"manager.{path}.interference",
                         f"markets {mix}, prices {case['price_kind']}, threads={case['threads']}: strategy '{s['behaviour']}' run after {before} differs from running it alone — {d}", case)
             ok = False
+        # in-process path: the caller's strategy object after ALL backtests are over still says what it said when its own backtest ended
+        post, solo_post = res.get(s["sid"] + "__post"), solo.get("post")
+        if d is None and post is not None and solo_post is not None:
+            d2 = diff_dump(post, solo_post)
+            if d2 is not None:
+                pos = [x["sid"] for x in ordered].index(s["sid"])
+                after = [x["behaviour"] for x in ordered[pos + 1:]]
+                ctx.violate(f"manager.{path}.interference-after-own-backtest",
+                            f"markets {mix}, threads={case['threads']}: account / positions / actions of strategy '{s['behaviour']}' read from its object after the "
+                            f"manager returned differ from running it alone; the strategies run after it were {after} — {d2}", case)
+                ok = False
     kinds = "+".join(sorted(case["behaviours"]))
     ctx.case(f"{path}:t{case['threads']}:n{len(strategies)}:{mix}:{case['price_kind']}:{case.get('interval', '1min')}:{kinds}:{case.get('order_kind', 'id')}:{'ok' if ok else 'bad'}", case)
     # the manager model on the projection "what did each strategy find"
@@ -922,6 +978,15 @@ def gen_cases(ctx):
         fixed(["uni_a"], 1, ["mut_prices", "buy", "add1"], price_kind=pk)
         fixed(["deribit"], 1, ["mut_prices", "opt_buy", "idle"], args=[None, 0, None], price_kind=pk)
     fixed(["uni_a"], 2, ["mut_prices", "watcher", "sell"], price_kind="decimal")
+    # trigger-driven strategies (triggers installed by initialize() / at construction), in both orders, and one that provokes and catches a refusal
+    fixed(["uni_a"], 1, ["trig_init", "trig_init", "buy"])
+    fixed(["uni_a"], 1, ["trig_init", "idle", "trig_ctor"], order=[2, 1, 0], kind="rev")
+    fixed(["uni_a"], 1, ["trig_ctor", "trig_init", "watcher"])
+    fixed(["uni_a"], 2, ["trig_init", "trig_ctor", "trig_init"])
+    fixed(["gmx"], 1, ["trig_init", "glp_buy", "trig_init"])
+    fixed(["uni_a"], 1, ["bad_price", "buy", "add1"])
+    fixed(["uni_a"], 1, ["bad_price", "rebalance", "sell"])
+    fixed(["uni_a"], 2, ["bad_price", "add1", "buy", "sell"])
     fixed(["uni_a", "uni_b"], 1, ["mut_data", "add1", "watcher", "add_b"])
     fixed(["uni_a", "aave"], 1, ["mut_status", "mut_assets", "watcher", "aave_s"])
     # Squeeth refers to its oSQTH pool market: both are configured markets
